@@ -187,20 +187,28 @@ template <class F> static Answer guarded(F f) {
 struct SolverTarget : Target {
   int kind;   // 0 env 1 gso 2 svd 3 chol
   std::unique_ptr<TBase> obj;
-  AdjInputData* data = nullptr;
-  GNU_gama::Mat<> A; GNU_gama::Vec<> b;
+  AdjInputData* data = nullptr; AdjInputData* data2 = nullptr;
+  GNU_gama::Mat<> A, A2; GNU_gama::Vec<> b, b2;
+  int cfg_sys = 0;     // 0 = the system of the problem, 1 = a bigger one given to the same object by reset(): one more unknown tied to the last one by one more row
+  Problem p2;
   SolverTarget(const Problem& pp, int k) : Target(pp), kind(k) {
     A.reset(p.m, p.n); b.reset(p.m);
     for (int i = 0; i < p.m; i++) { b(i + 1) = p.b[i]; for (int j = 0; j < p.n; j++) A(i + 1, j + 1) = p.rows[i][j]; }
+    p2 = p; p2.n = p.n + 1; p2.m = p.m + 1;
+    for (auto& r : p2.rows) r.push_back(0);
+    { std::vector<int> r(p2.n, 0); r[p.n - 1] = 1; r[p.n] = -1; p2.rows.push_back(r); p2.b.push_back(0.5); }
+    A2.reset(p2.m, p2.n); b2.reset(p2.m);
+    for (int i = 0; i < p2.m; i++) { b2(i + 1) = p2.b[i]; for (int j = 0; j < p2.n; j++) A2(i + 1, j + 1) = p2.rows[i][j]; }
+    if (k == 0) data2 = make_input(p2, nullptr);
     if (kind == 0) { data = make_input(p, nullptr); TEnv* e = new TEnv; obj.reset(e); e->reset(data); }
     else if (kind == 1) { TGso* g = new TGso; obj.reset(g); g->reset(A, b); }
     else if (kind == 2) { TSvd* s = new TSvd; obj.reset(s); s->reset(A, b); }
     else { TChol* c = new TChol; obj.reset(c); c->reset(A, b); }
     cfg_alg = kind;
   }
-  ~SolverTarget() { obj.reset(); delete data; }
-  std::string key() override { return cfg() + " " + key_base(obj.get()); }
-  std::vector<int> cfgv() const override { return {cfg_minx}; }
+  ~SolverTarget() { obj.reset(); delete data; delete data2; }
+  std::vector<int> cfgv() const override { return {cfg_minx, cfg_sys}; }
+  std::string key() override { return cfg() + "/y" + std::to_string(cfg_sys) + " " + key_base(obj.get()); }
   Answer apply(const Op& op) override {
     TBase* o = obj.get();
     return guarded([&](Answer& a) {
@@ -217,7 +225,8 @@ struct SolverTarget : Target {
         case K_MINX_ALL: o->min_x(); cfg_minx = -1; a.isvoid = true; break;
         case K_MINX_S: { std::vector<int> s = p.subsets[op.a]; cfg_minx = op.a; a.isvoid = true; o->min_x((int)s.size(), s.data()); break; }   // the list is recorded even if an immediate re-regularisation throws
         case K_RESET:
-          if (kind == 0) static_cast<TEnv*>(o)->reset(data); else static_cast<TFull*>(o)->reset(A, b);
+          cfg_sys = op.a;
+          if (kind == 0) static_cast<TEnv*>(o)->reset(op.a ? data2 : data); else { if (op.a) static_cast<TFull*>(o)->reset(A2, b2); else static_cast<TFull*>(o)->reset(A, b); }
           a.isvoid = true; break;
         default: a.exc = "badop";
       }
@@ -415,7 +424,7 @@ static std::vector<Op> make_ops(const Problem& p, int kind) {
     switch (k) {
       case K_MINX_ALL: o.cslot = 0; o.cval = -1; break;
       case K_MINX_S: case K_SETALG: case N_SETALG: o.cslot = 0; o.cval = a; break;
-      case N_M0TYPE: case K_ADJ_SETDATA: o.cslot = 1; o.cval = a; break;
+      case N_M0TYPE: case K_ADJ_SETDATA: case K_RESET: o.cslot = 1; o.cval = a; break;
       case N_CONFPR: o.cslot = 2; o.cval = a; break;
       case N_STATUS: o.cslot = 3; o.cval = a; break;
       case N_OBSACT: o.cslot = 4; o.cval = a; break;
@@ -468,7 +477,7 @@ static std::vector<Op> make_ops(const Problem& p, int kind) {
   for (int i = 1; i <= p.n; i++) add("lindep(" + std::to_string(i) + ")", K_LINDEP, i);
   add("min_x()", K_MINX_ALL, 0, 0, true);
   for (size_t s = 0; s < p.subsets.size(); s++) add("min_x(S" + std::to_string(s) + "={" + join(p.subsets[s]) + "})", K_MINX_S, (int)s, 0, true);
-  add("reset", K_RESET, 0, 0, true);
+  add("reset", K_RESET, 0, 0, true); add("reset(bigger system: one more unknown and row)", K_RESET, 1, 0, true);
   return ops;
 }
 
